@@ -314,7 +314,7 @@ func ruleMapRange(c *Ctx) []Obligation {
 					}
 				case *types.Slice:
 					if ok, why := sortedBeforeRead(a, phi, ml); !ok {
-						report(phi.Pos(), "slice collected across iterations ("+phi.Comment+") is read before being sorted", "%s", why)
+						report(phi.Pos(), "slice collected across iterations ("+phi.Comment+") "+sortComplaint(why), "%s", why)
 					}
 				case *types.Map, *types.Pointer, *types.Interface:
 					// carried reference: fine, effects are judged at the instructions
@@ -350,7 +350,7 @@ func ruleMapRange(c *Ctx) []Obligation {
 							switch al.Type().Underlying().(*types.Pointer).Elem().Underlying().(type) {
 							case *types.Slice:
 								if ok, why := cellSortedBeforeRead(a, al, ml); !ok {
-									report(x.Pos(), "slice collected across iterations ("+al.Comment+") is read before being sorted", "%s", why)
+									report(x.Pos(), "slice collected across iterations ("+al.Comment+") "+sortComplaint(why), "%s", why)
 								}
 							case *types.Basic:
 								if b, ok := al.Type().Underlying().(*types.Pointer).Elem().Underlying().(*types.Basic); ok && b.Info()&types.IsString != 0 {
@@ -476,6 +476,9 @@ func sortedBeforeRead(a *FnA, phi *ssa.Phi, ml *mapLoop) (bool, string) {
 	if ok, why := sortOrderOK(a.c, sortCall.(ssa.CallInstruction)); !ok {
 		return false, "sorted, but not by a recognisable total order (" + why + "): the result may still depend on the map's iteration order"
 	}
+	if ok, why := uniqueSortKey(a, ml, sortCall.(ssa.CallInstruction)); !ok {
+		return false, "sorted by a key two entries may share (" + why + "): entries that tie keep the map's iteration order"
+	}
 	for _, r := range outside {
 		if r == sortCall {
 			continue
@@ -532,6 +535,9 @@ func cellSortedBeforeRead(a *FnA, cell *ssa.Alloc, ml *mapLoop) (bool, string) {
 	}
 	if ok, why := sortOrderOK(a.c, sortCall); !ok {
 		return false, "sorted, but not by a recognisable total order (" + why + "): the result may still depend on the map's iteration order"
+	}
+	if ok, why := uniqueSortKey(a, ml, sortCall); !ok {
+		return false, "sorted by a key two entries may share (" + why + "): entries that tie keep the map's iteration order"
 	}
 	for _, l := range loads {
 		// loads inside the loop prelude (before the loop) are initial empties
@@ -611,4 +617,122 @@ func keyedUpdateHelper(cal *ssa.Function, args []ssa.Value, key ssa.Value) bool 
 		}
 	}
 	return n > 0
+}
+
+// sortField: which field of the elements a sort call orders by ("" = the element itself); ok=false
+// if that cannot be told.
+func sortField(c *Ctx, ci ssa.CallInstruction) (string, bool) {
+	sc := ci.Common().StaticCallee()
+	if sc == nil {
+		return "", false
+	}
+	n := sc.String()
+	if i := strings.Index(n, "["); i >= 0 {
+		n = n[:i]
+	}
+	var less *ssa.Function
+	switch n {
+	case "sort.Strings", "sort.Ints", "sort.Float64s", "slices.Sort":
+		return "", true
+	case "sort.Slice", "sort.SliceStable", "slices.SortFunc", "slices.SortStableFunc":
+		if len(ci.Common().Args) < 2 {
+			return "", false
+		}
+		if mc, ok := ci.Common().Args[1].(*ssa.MakeClosure); ok {
+			less, _ = mc.Fn.(*ssa.Function)
+		} else if f, ok := ci.Common().Args[1].(*ssa.Function); ok {
+			less = f
+		}
+	case "sort.Stable", "sort.Sort":
+		if mi, ok := ci.Common().Args[0].(*ssa.MakeInterface); ok {
+			ms := c.Prog.MethodSets.MethodSet(mi.X.Type())
+			for i := 0; i < ms.Len(); i++ {
+				if ms.At(i).Obj().Name() == "Less" {
+					less = c.Prog.MethodValue(ms.At(i))
+				}
+			}
+		}
+	}
+	if less == nil || less.Blocks == nil {
+		return "", false
+	}
+	rs := c.FA(less).returns()
+	if len(rs) != 1 {
+		return "", false
+	}
+	var x ssa.Value
+	switch v := rs[0].Results[0].(type) {
+	case *ssa.BinOp:
+		x = v.X
+	case *ssa.Call:
+		if len(v.Call.Args) > 0 {
+			x = v.Call.Args[0]
+		}
+	}
+	for x != nil {
+		switch y := x.(type) {
+		case *ssa.UnOp:
+			x = y.X
+			continue
+		case *ssa.FieldAddr:
+			return fieldName(y.X.Type(), y.Field), true
+		case *ssa.Field:
+			return fieldName(y.X.Type(), y.Field), true
+		case *ssa.IndexAddr, *ssa.Index, *ssa.Parameter:
+			return "", true
+		}
+		break
+	}
+	return "", false
+}
+
+// uniqueSortKey: what the loop collects is ordered by the map's own key (or a field that holds it),
+// so no two entries can tie. Only judged when the collection is by append inside the loop and the
+// sort field can be told; other shapes are left to the order check alone.
+func uniqueSortKey(a *FnA, ml *mapLoop, sortCall ssa.CallInstruction) (bool, string) {
+	field, ok := sortField(a.c, sortCall)
+	if !ok || ml.key == nil {
+		return true, ""
+	}
+	for b := range ml.blocks {
+		for _, in := range b.Instrs {
+			call, ok := in.(*ssa.Call)
+			if !ok {
+				continue
+			}
+			bi, ok := call.Call.Value.(*ssa.Builtin)
+			if !ok || bi.Name() != "append" || len(call.Call.Args) != 2 {
+				continue
+			}
+			va, ok := varargs(call.Call.Args[1])
+			if !ok || len(va) != 1 {
+				continue
+			}
+			el := stripConv(va[0])
+			if field == "" {
+				if _, isStruct := el.Type().Underlying().(*types.Struct); isStruct {
+					continue
+				}
+				if el != ml.key {
+					return false, "the collected values " + a.Desc(el) + " are not the map's keys"
+				}
+				continue
+			}
+			fs, ok := a.structLit(el)
+			if !ok {
+				continue
+			}
+			if v, has := fs[field]; has && stripConv(v) != ml.key {
+				return false, "field " + field + " = " + a.Desc(v) + " is not the map's key"
+			}
+		}
+	}
+	return true, ""
+}
+
+func sortComplaint(why string) string {
+	if strings.HasPrefix(why, "sorted by a key two entries may share") {
+		return "is sorted by a key two entries may share"
+	}
+	return "is read before being sorted"
 }
